@@ -333,8 +333,22 @@ def r09d(repo: Repo, chk: Check):
                 if txt.startswith(".") and txt[-1] in "gfe" and txt[1:-1].isdigit():
                     found += 1
                     p = int(txt[1:-1])
-                    need = 16 if txt[-1] == "g" else 16
-                    judge_prec(f"types:to_string:format {txt!r}", txt, p >= need, f"{m.path}:{node.lineno}")
+                    if txt[-1] == "f":
+                        # p decimals give p - (leading zeros) significant digits: needs a lower bound on |value| on every path to here
+                        import math as _m
+                        lead = None
+                        for nid_ in [n.id for n in cfg.nodes_of(node)]:
+                            for test, pol in cfg.guards(nid_):
+                                if isinstance(test, ast.Compare) and len(test.ops) == 1 and isinstance(test.comparators[0], ast.Constant) \
+                                        and isinstance(test.comparators[0].value, (int, float)) and test.comparators[0].value > 0:
+                                    c_ = test.comparators[0].value
+                                    if isinstance(test.ops[0], (ast.GtE, ast.Gt)) and pol or isinstance(test.ops[0], (ast.Lt, ast.LtE)) and not pol:
+                                        z = max(0, _m.ceil(-_m.log10(c_)))
+                                        lead = z if lead is None else min(lead, z)
+                        ok_f = lead is not None and p - lead >= 16
+                        judge_prec(f"types:to_string:format {txt!r}", f"{txt} with values as small as {'unbounded' if lead is None else '1e-%d' % lead}", ok_f, f"{m.path}:{node.lineno}")
+                    else:
+                        judge_prec(f"types:to_string:format {txt!r}", txt, p >= 16, f"{m.path}:{node.lineno}")
                 else:
                     raise AnalysisError(f"to_string: float format {txt!r} not recognised")
         # format_str = f"{{value:.{ndigits}f}}"
